@@ -2,3 +2,5 @@ import MinkProofs.TablesOk
 import MinkProofs.Numbering
 import MinkProofs.C07
 import MinkProofs.C08
+import MinkProofs.SortLemmas
+import MinkProofs.C02
